@@ -609,12 +609,14 @@ func ruleContiguousAdvance(w *core.World, r *core.Report, name string) {
 		}
 		return false
 	}
+	// ... or `m[k] != nil` for a map whose values can be nil (pointers here): an absent key reads as nil, so a
+	// non-nil value was found (nilLookupFound, r7_n3.go)
+	factFound := func(fct core.Fact) bool {
+		return (fct.Val && isFound(fct.Cond, 0)) || nilLookupFound(fct, isNextKey)
+	}
 	foundAt := func(b *ssa.BasicBlock) bool {
 		for _, fct := range core.FactsAt(b) {
-			if !fct.Val {
-				continue
-			}
-			if isFound(fct.Cond, 0) {
+			if factFound(fct) {
 				return true
 			}
 		}
@@ -669,10 +671,7 @@ func ruleContiguousAdvance(w *core.World, r *core.Report, name string) {
 		// dominated by "found" of a lookup keyed by nextSeq
 		found := false
 		for _, fct := range core.FactsAt(st.Block()) {
-			if !fct.Val {
-				continue
-			}
-			if isFound(fct.Cond, 0) {
+			if factFound(fct) {
 				found = true
 			}
 		}
